@@ -4,7 +4,7 @@ Only statements of the property (and non-vacuity examples) live here; helper lem
 Lemmas / Accept / Ops / Laws.  The state machine is `BV.C10.step` (Model.lean): one public mempool
 call or one block connect / disconnect notification handled by netsync.
 -/
-import BV.C10.Laws
+import BV.C10.Final
 import BV.Generated.C10
 namespace BV.C10
 open Spec Lemmas
@@ -86,6 +86,52 @@ theorem replacement_law (pol : Policy) (c : Chain) (s : Pool) (t : TxAbs) (isNew
 theorem replacement_evicts_direct_conflicts (s : Pool) (t : TxAbs) (x : OutPoint) (c : TxAbs)
     (hx : x ∈ t.ins) (hs : s.spender x = some c) : ∃ e ∈ txConflicts s t, e.id = c.id :=
   txConflicts_direct hx hs
+
+/-! ### InputsAvailable: every pooled input is unspent in the chain or created by a pooled transaction
+
+`W` is the universe of transactions of a history: ids are ranks (a transaction only references ids
+below its own) and name one transaction — the two properties of txids-as-hashes the pool relies on. -/
+
+/-- inductive step, every operation including block connect and disconnect (the disconnect case holds
+because of the fixes of F-C10-a / F-C10-c, which the model mirrors) -/
+theorem inputsAvailable_step (W : TxAbs → Prop) (U : Universe W) (pol : Policy) (st : State) (op : Op)
+    (g : GoodSt W st) (hop : OpOk W st op) :
+    GoodSt W (step pol st op).1 ∧ InputsAvailable (step pol st op).1.chain (step pol st op).1.pool :=
+  let r := step_goodSt U pol st op g hop
+  ⟨r, inputsAvailable_of_good r.good⟩
+
+/-- after any history that respects `OpOk` every pooled transaction's inputs are unspent in the chain
+view or created by another pooled transaction -/
+theorem inputsAvailable_always (W : TxAbs → Prop) (U : Universe W) (pol : Policy) (maturity mtp0 : Nat)
+    (ops : List Op) (h : RunOk W pol (State.init maturity mtp0) ops) :
+    InputsAvailable (run pol (State.init maturity mtp0) ops).1.chain (run pol (State.init maturity mtp0) ops).1.pool :=
+  inputsAvailable_of_good (run_goodSt U pol ops _ (goodSt_init W maturity mtp0) h).good
+
+/-- the dependency graph of the pool is acyclic: every pooled transaction is ranked above its parents -/
+theorem pool_acyclic (W : TxAbs → Prop) (U : Universe W) (pol : Policy) (maturity mtp0 : Nat)
+    (ops : List Op) (h : RunOk W pol (State.init maturity mtp0) ops) :
+    PoolRanked (run pol (State.init maturity mtp0) ops).1.pool :=
+  (run_goodSt U pol ops _ (goodSt_init W maturity mtp0) h).good.ranked U
+
+/-- the hypotheses are satisfiable: a universe, and a history in it -/
+example : Universe (fun t : TxAbs => t.ins = [] ∧ t = { t with id := 0 } ∧ False) :=
+  ⟨fun _ h => absurd h.2.2 (fun h => h), fun _ _ h => absurd h.2.2 (fun h => h)⟩
+
+/-- removing a transaction together with its redeemers removes a set closed under pooled redeemers:
+nothing that stays in the pool spends an output of anything that was removed -/
+theorem remove_with_redeemers_closed (W : TxAbs → Prop) (U : Universe W) (c : Chain) (s : Pool) (t : TxAbs)
+    (g : Good W c (fun _ => False) s) (ht : W t) :
+    ∀ u ∈ (removeTransaction s t true).txs, ∀ q ∈ s.txs, q ∉ (removeTransaction s t true).txs →
+      ∀ x ∈ u.ins, ¬ OutputOf x q := by
+  have := (remSpec_removeRec_tx U g ht).closed
+  unfold removeTransaction; simpa using this
+
+/-- what a replacement evicts is closed under pooled redeemers (conflicts *and their descendants*) -/
+theorem replacement_evicts_descendants (W : TxAbs → Prop) (U : Universe W) (c : Chain) (s : Pool) (t : TxAbs)
+    (g : Good W c (fun _ => False) s) :
+    ∀ m ∈ s.txs, (∃ e ∈ txConflicts s t, e.id = m.id) → ∀ u ∈ s.txs, (∃ x ∈ u.ins, OutputOf x m) →
+      ∃ e ∈ txConflicts s t, e.id = u.id :=
+  txConflicts_closed g.ok (g.ranked U) t
 
 /-! ### constants pinned to the tree -/
 
